@@ -1,0 +1,78 @@
+//go:build verif
+
+package httpcluster
+
+import (
+	"context"
+	"log/slog"
+	"sort"
+	"time"
+
+	"github.com/robbyt/go-supervisor/runnables/httpserver"
+)
+
+// This file exists only under the build tag "verif". It re-exports unexported pieces of the
+// cluster runner to the verification harness; it adds no behaviour.
+
+// VerifServerRunner is the interface a cluster-managed server must satisfy.
+type VerifServerRunner = httpServerRunner
+
+// VerifWithRunnerFactory installs a runner factory (WithRunnerFactory takes an unexported type).
+func VerifWithRunnerFactory(
+	f func(ctx context.Context, id string, cfg *httpserver.Config, handler slog.Handler) (VerifServerRunner, error),
+) Option {
+	return WithRunnerFactory(runnerFactory(f))
+}
+
+// VerifWithDeadlineServerStart sets the per-server readiness deadline.
+func VerifWithDeadlineServerStart(d time.Duration) Option {
+	return func(r *Runner) error {
+		r.deadlineServerStart = d
+		return nil
+	}
+}
+
+// VerifEntry is a flat view of one serverEntry of the planner.
+type VerifEntry struct {
+	Key       string // map key (may differ from ID for ":stop" entries)
+	ID        string
+	Config    *httpserver.Config
+	HasRunner bool
+	Action    string
+}
+
+type verifDummyRunner struct{ httpServerRunner }
+
+func verifFlatten(m entriesManager) []VerifEntry {
+	e, ok := m.(*entries)
+	if !ok {
+		return nil
+	}
+	out := make([]VerifEntry, 0, len(e.servers))
+	for k, v := range e.servers {
+		out = append(out, VerifEntry{Key: k, ID: v.id, Config: v.config, HasRunner: v.runner != nil, Action: string(v.action)})
+	}
+	sort.Slice(out, func(i, j int) bool { return out[i].Key < out[j].Key })
+	return out
+}
+
+// VerifPlan runs the planner (newEntries, buildPendingEntries, getPendingActions, commit) on a
+// committed state given as a flat list and a desired configuration map.
+func VerifPlan(
+	current []VerifEntry,
+	desired map[string]*httpserver.Config,
+) (pending []VerifEntry, toStart, toStop []string, committed []VerifEntry) {
+	cur := &entries{servers: make(map[string]*serverEntry)}
+	for _, c := range current {
+		se := &serverEntry{id: c.ID, config: c.Config, action: action(c.Action)}
+		if c.HasRunner {
+			se.runner = verifDummyRunner{}
+		}
+		cur.servers[c.Key] = se
+	}
+	p := cur.buildPendingEntries(newEntries(desired))
+	toStart, toStop = p.getPendingActions()
+	sort.Strings(toStart)
+	sort.Strings(toStop)
+	return verifFlatten(p), toStart, toStop, verifFlatten(p.commit())
+}
